@@ -1036,7 +1036,8 @@ func (p *Parser[V]) parseLet(tokenizer *Tokenizer, idents Identifiers[V]) (AST, 
 }
 
 func (p *Parser[V]) parseExpression(tokenizer *Tokenizer, constants Identifiers[V]) (AST, error) {
-	return p.parseOp(tokenizer, 0, constants)
+	// there may be no operator at all
+	return p.nextParserCall(-1)(tokenizer, constants)
 }
 
 func (p *Parser[V]) parseOp(tokenizer *Tokenizer, op int, constants Identifiers[V]) (AST, error) {
@@ -1085,8 +1086,9 @@ func (p *Parser[V]) parseUnary(tokenizer *Tokenizer, constants Identifiers[V]) (
 			var inner AST
 			var err error
 			if un.opPos >= 0 {
-				// the unary is also an operator ("-")
-				inner, err = p.parseOp(tokenizer, un.opPos+1, constants)
+				// the unary is also an operator ("-"); it may be the
+				// operator with the highest priority
+				inner, err = p.nextParserCall(un.opPos)(tokenizer, constants)
 			} else {
 				inner, err = p.parseNonOperator(tokenizer, constants)
 			}
